@@ -135,7 +135,7 @@ func randText(rng *rand.Rand) stream {
 }
 
 func validate(c *lib.Ctx, dir string) error {
-	ns, nt := c.Pick(250, 6000), c.Pick(150, 3000)
+	ns, nt := c.Pick(250, 3000), c.Pick(150, 1500)
 	streams := make([]stream, 0, ns+nt)
 	for i := 0; i < ns; i++ {
 		streams = append(streams, randStream(c.Rand))
